@@ -72,3 +72,52 @@ Proof.
     rewrite E. now destruct (p1_trailer_independent (text hd) hd (dropN (lenN (text hd)) (takeN k x)) Hself) as (H & _).
   - right. intros ->. cbn in Ex. subst x. cbn in Hle. lia.
 Qed.
+
+(* the same loop over the auto-detecting entry point (what examples/server.rs actually calls) *)
+Lemma pa_of_v1_ok y hd : p1 y = Ok hd -> pa y = RV1 (Ok hd).
+Proof.
+  intros H. destruct (p1_ok_starts_P y hd H) as [r E]. rewrite pa_spec, (p2_text y r E). cbn. now rewrite H.
+Qed.
+
+Lemma pa_of_v2_ok y h : p2 y = Ok h -> pa y = RV2 (Ok h).
+Proof. intros H. rewrite pa_spec, H. reflexivity. Qed.
+
+Theorem receive_auto_v2 x h reads : wf_bytes x = true -> p2 x = Ok h -> concat reads = x ->
+  receive pa is_incomplete_a [] reads = Some (RV2 (Ok h)).
+Proof.
+  intros Hwf Hp Ex.
+  destruct (p2_trailer_independent x h [] ltac:(now rewrite app_nil_r) Hp) as (_ & Hself & _ & Hpre).
+  assert (Hlen : 0 < lenN (hbytes h)).
+  { destruct (p2_ok_form x h Hwf Hp) as (vc & fp & hi & lo & rest & cmd & fam & proto & _ & _ & _ & _ & _ & _ & _ & _ & _ & _ & _ & _ & ->).
+    cbn [hbytes]. rewrite lenN_app. cbn. lia. }
+  assert (Hle : lenN (hbytes h) <= lenN x).
+  { rewrite Hpre at 1. rewrite lenN_takeN. lia. }
+  apply (receive_generic pa is_incomplete_a x (RV2 (Ok h)) (lenN (hbytes h))); try assumption; try reflexivity.
+  - intros k Hk. now apply (pa_prefix_incomplete_v2 x h k).
+  - intros k H1 H2. apply pa_of_v2_ok.
+    assert (E : takeN k x = hbytes h ++ dropN (lenN (hbytes h)) (takeN k x)).
+    { rewrite <- (takeN_dropN (lenN (hbytes h)) (takeN k x)) at 1. f_equal.
+      rewrite takeN_takeN. rewrite Hpre at 2. f_equal. lia. }
+    rewrite E. apply (p2_trailer_independent (hbytes h) h); [|exact Hself].
+    rewrite <- E. now apply wf_bytes_takeN.
+  - right. intros ->. cbn in Ex. subst x. cbn in Hle. lia.
+Qed.
+
+Theorem receive_auto_v1 x hd reads : p1 x = Ok hd -> ascii (text hd) = true -> concat reads = x ->
+  receive pa is_incomplete_a [] reads = Some (RV1 (Ok hd)).
+Proof.
+  intros Hp Ha Ex.
+  destruct (p1_trailer_independent x hd [] Hp) as (_ & Hself & Hpre & Hsuf).
+  assert (Hlen : 0 < lenN (text hd)).
+  { apply is_suffix_app in Hsuf as [r ->]. rewrite lenN_app. cbn. lia. }
+  assert (Hle : lenN (text hd) <= lenN x).
+  { rewrite Hpre at 1. rewrite lenN_takeN. lia. }
+  apply (receive_generic pa is_incomplete_a x (RV1 (Ok hd)) (lenN (text hd))); try assumption; try reflexivity.
+  - intros k Hk. now destruct (p1_prefix_incomplete x hd k Hp Ha Hk) as (_ & _ & H3).
+  - intros k H1 H2. apply pa_of_v1_ok.
+    assert (E : takeN k x = text hd ++ dropN (lenN (text hd)) (takeN k x)).
+    { rewrite <- (takeN_dropN (lenN (text hd)) (takeN k x)) at 1. f_equal.
+      rewrite takeN_takeN. rewrite Hpre at 2. f_equal. lia. }
+    rewrite E. now destruct (p1_trailer_independent (text hd) hd (dropN (lenN (text hd)) (takeN k x)) Hself) as (H & _).
+  - right. intros ->. cbn in Ex. subst x. cbn in Hle. lia.
+Qed.
